@@ -431,6 +431,9 @@ def job_ground_accuracy(ctx: Ctx, what):
         cs, al, cf = [np.zeros(3), np.array([0.0, 0.0, -0.3]), np.array([0.25, 0.0, 0.0])], [1.0, 2.5, 2.0], [1.0, 0.5, -0.4]
         v = po.solve_poisson_bvp(ag, rho(ag.points, cs, al, cf), itf, include_origin=True, remove_large_pts=10.0)(q)
         e1 = float(np.max(np.abs(v - pot(q, cs, al, cf))))
+        ag0 = AtomGrid(rg, degrees=[9])              # unrotated shells: harmonic components that vanish or keep one sign do so exactly on this grid
+        v0 = po.solve_poisson_bvp(ag0, rho(ag0.points, cs, al, cf), itf, include_origin=True, remove_large_pts=10.0)(q)
+        e1 = max(e1, float(np.max(np.abs(v0 - pot(q, cs, al, cf)))))
         v = po.solve_poisson_ivp(ag, rho(ag.points, cs[:1], al[:1], cf[:1]), itf, r_interval=(1000, 1e-5))(q)
         e2 = float(np.max(np.abs(v - pot(q, cs[:1], al[:1], cf[:1]))))
         if not e1 <= 1e-2:
